@@ -555,7 +555,17 @@ func (mr *machineRun) env(x *Exec, st *State, vars map[string]SVal) *Env {
 	for k, v := range mr.sp.Alias {
 		env.Alias[k] = v
 	}
-	env.CellType = func(name string) types.Type { return mr.cells[name] }
+	env.CellType = func(name string) types.Type {
+		if t, ok := mr.cells[name]; ok {
+			return t
+		}
+		for _, p := range mr.top.Params {
+			if p.Name() == name {
+				return p.Type() // an operator parameter that is not captured: a constant of the subscription
+			}
+		}
+		return nil
+	}
 	return env
 }
 
@@ -1168,7 +1178,11 @@ func (mr *machineRun) runRequires() {
 	x.H = h
 	var params []SVal
 	for _, p := range mr.top.Params {
-		params = append(params, x.symbolic(st, p.Name(), p.Type()))
+		v := x.symbolic(st, p.Name(), p.Type())
+		params = append(params, v)
+		if _, isCell := mr.cells[p.Name()]; !isCell {
+			st.Heap[p.Name()] = v // a parameter that no closure captures: visible to requires under its own name
+		}
 	}
 	collect := func(s2 *State) {
 		for _, o := range s2.Obls {
